@@ -245,7 +245,11 @@ func aofHistory(prop string, cfg InstCfg, seed, tail []Action, drop bool, w *Wor
 						rel = append(rel, "SET-"+strings.ToUpper(x.A[3]))
 					}
 				}
-				sig = fmt.Sprintf("aof|deadline-moved|relative=[%s]|clock-advanced=%v", strings.Join(rel, ","), advd)
+				rs := map[string]bool{}
+				for _, r := range rel {
+					rs[r] = true
+				}
+				sig = fmt.Sprintf("aof|deadline-moved|relative=%v|clock-advanced=%v", sortedKeys(rs), advd)
 			}
 			if kind == "retyped-by-preamble" {
 				kinds := map[string]bool{}
